@@ -66,11 +66,48 @@ func BuildOverlay(repoDir, harnessDir string) (map[string][]byte, []string, erro
 		pkgs[RepoModule+"/internal/zzverif/"+filepath.Dir(rel)] = true
 		return nil
 	})
+	for p, b := range Rewrites(repoDir) {
+		ov[p] = b
+	}
 	var ps []string
 	for p := range pkgs {
 		ps = append(ps, p)
 	}
 	return ov, ps, err
+}
+
+// SourceRewrite turns a size constant of the repository into a package variable - in the
+// overlay only, never in /repo - so that a harness can run the real loop with a small value.
+// It is applied only when the declaration is found exactly once in the current source; the
+// generated accessor tells the harness whether it was.
+type SourceRewrite struct {
+	File, Old, New string
+	Accessor       string // virtual file with the setter
+	Applied        string // accessor body when the rewrite applies
+	NotApplied     string // accessor body otherwise
+}
+
+var SourceRewrites = []SourceRewrite{{
+	File: "database/sqlite_adapter.go", Old: "const sqliteBatchSize = 500", New: "var sqliteBatchSize = 500",
+	Accessor:   "database/zz_batchsize.go",
+	Applied:    "package database\n\n// setBatchSize (verification overlay): the import batch size is a variable here.\nfunc setBatchSize(n int) bool { sqliteBatchSize = n; return true }\n",
+	NotApplied: "package database\n\nfunc setBatchSize(int) bool { return false }\n",
+}}
+
+// Rewrites returns the overlay entries of SourceRewrites for repoDir (virtual path -> content).
+func Rewrites(repoDir string) map[string][]byte {
+	out := map[string][]byte{}
+	for _, rw := range SourceRewrites {
+		path := filepath.Join(repoDir, rw.File)
+		b, err := os.ReadFile(path)
+		if err == nil && strings.Count(string(b), rw.Old) == 1 {
+			out[path] = []byte(strings.Replace(string(b), rw.Old, rw.New, 1))
+			out[filepath.Join(repoDir, rw.Accessor)] = []byte(rw.Applied)
+		} else {
+			out[filepath.Join(repoDir, rw.Accessor)] = []byte(rw.NotApplied)
+		}
+	}
+	return out
 }
 
 // SourcePkgs are dependencies executed from source rather than modelled.
